@@ -50,7 +50,7 @@ def run_plan(ctx: Ctx, plan, shards_per_group=None, procs=16, budget=30, fingerp
             jobs.append({'u': g['u'], 'opts': g.get('opts', {}), 'cases': shard,
                          'out': os.path.join(tdir, f'g{gi}_{tag}_{si}.ndjson'), 'prefix': f'g{gi}.{si}',
                          'fresh': g.get('fresh', False), 'budget': budget, 'extra': g.get('extra'),
-                         'revisit': g.get('revisit', 0.25), 'seed': ctx.seed + gi * 131 + si, 'witness': g.get('witness', False)})
+                         'revisit': g.get('revisit', 0.25), 'seed': ctx.seed + gi * 131 + si, 'witness': g.get('witness', False), 'pre_u': g.get('pre_u')})
     results = run_jobs(jobs, procs)
     files = [r['out'] for r in results if r['events']]
     skipped = [s for r in results for s in r['skipped']]
